@@ -168,9 +168,12 @@ fn title_case(name: &str) -> String {
     out
 }
 
-pub fn run_impl(bytes: &[u8], lookup_names: &[String]) -> Obs {
+pub fn run_impl(bytes: &[u8], lookup_names: &[String]) -> Obs { run_impl_env(bytes, lookup_names, false) }
+
+/// `peer_closes`: the environment answers the read after the last delivered byte with end-of-stream instead of "nothing yet"
+pub fn run_impl_env(bytes: &[u8], lookup_names: &[String], peer_closes: bool) -> Obs {
     let mut conn = RawConn::init();
-    let mut reader = ScriptedReader::new(vec![bytes.to_vec()], false);
+    let mut reader = ScriptedReader::new(vec![bytes.to_vec()], peer_closes);
     reader.deliver_next();
     let mut d = Driver::new();
     let read = guarded(|| {
@@ -252,6 +255,25 @@ pub fn check_bytes(ctx: &mut Ctx, bytes: &[u8], dev: &str, edit_feature: &str) {
         let stage_ref = match &reference { Parse::Complete(_) => "well-formed", Parse::Incomplete(s) => s, Parse::Invalid(_, r) => r };
         ctx.violation(&format!("C02/{stage}/{stage_ref}/panic:{}", panic_kind(msg)), true, || witness("panic", msg.clone()));
         return
+    }
+    // Environment deviation: the peer closes the connection after these bytes (the read after the last byte answers
+    // end-of-stream instead of Pending).  A complete request must come out as without it; anything else must end in a
+    // refusal or a close - a server cannot wait for a closed peer, and must not panic or invent a request.
+    {
+        ctx.transitions += 1;
+        let obs_eof = run_impl_env(bytes, &lookup_names, true);
+        let stage_ref = match &reference { Parse::Complete(_) => "well-formed", Parse::Incomplete(s) => s, Parse::Invalid(_, r) => r };
+        let w2 = |problem: &str, detail: String| { let mut w = witness(problem, detail); w["environment"] = json!("peer closes after the last byte"); w["observed_when_peer_closes"] = json!(match &obs_eof { Obs::Accepted(f) => format!("accepted {} {:?}", f.method, f.path), Obs::Refused(r) => format!("refused: {}", crate::core::esc(&r[..r.len().min(60)])), o => format!("{o:?}") }); w };
+        match (&reference, &obs_eof) {
+            (_, Obs::Panic(stage, msg)) => { ctx.violation(&format!("C02/{stage}/{stage_ref}/peer-closes/panic:{}", panic_kind(msg)), true, || w2("panic when the peer closes", msg.clone())); return }
+            (Parse::Complete(_), o) => if *o != obs && !matches!(obs, Obs::Panic(..)) {
+                ctx.violation(&format!("C02/well-formed/{edit_feature}/peer-closes/result-differs"), true, || w2("a complete request is treated differently when the peer closes after it", String::new())); return
+            },
+            (_, Obs::Stall) => { ctx.violation(&format!("C02/{stage_ref}/{edit_feature}/peer-closes/stall"), true, || w2("waits although the peer has closed", String::new())); return }
+            (Parse::Incomplete(stage), Obs::Accepted(_)) => { ctx.violation(&format!("C02/incomplete-{stage}/{edit_feature}/peer-closes/accepted-incomplete-request"), true, || w2("a proper prefix of a request was accepted as a request", String::new())); return }
+            (Parse::Invalid(stage, reason), Obs::Accepted(_)) => { ctx.violation(&format!("C02/{stage}/{reason}/peer-closes/accepted-should-refuse"), true, || w2("accepted", String::new())); return }
+            _ => {}
+        }
     }
     match &reference {
         Parse::Invalid(stage, reason) => match &obs {
